@@ -15,6 +15,7 @@ import (
 	"sort"
 	"strings"
 	"sync"
+	"sync/atomic"
 	"testing"
 	"testing/synctest"
 	"time"
@@ -148,7 +149,7 @@ func (spyHarness) Gen(seed uint64, prop, tier string) *simkit.Program {
 	careful := r.P(0.6)
 	nsub := 1 + r.Intn(4)
 	for i := 0; i < nsub; i++ {
-		add("sub", int64(r.Intn(128)), 0)
+		add("sub", int64(r.Intn(128)), int64(r.Intn(12)))
 	}
 	n := 8 + r.Intn(40)
 	seq := int64(0)
@@ -177,7 +178,7 @@ func (spyHarness) Gen(seed uint64, prop, tier string) *simkit.Program {
 				}
 			}
 		case 1:
-			add("sub", int64(r.Intn(128)), 0)
+			add("sub", int64(r.Intn(128)), int64(r.Intn(12)))
 		case 2:
 			add("stall", int64(r.Intn(6)), 0)
 			stalled++
@@ -346,12 +347,27 @@ func (h spyHarness) Exec(p *simkit.Program) *simkit.Result {
 					req.Filters = append(req.Filters, &spyv1.FilterEntry{Filter: &spyv1.FilterEntry_EmitterFilter{EmitterFilter: &spyv1.EmitterFilter{
 						ChainId: spyv1ChainID(10), EmitterAddress: hex.EncodeToString(spyEmitters[0].addr[:])}}})
 				}
+				unknownKind := st.B == 7
+				if unknownKind {
+					// a filter entry of a kind this server does not know (an empty entry on the wire): it
+					// names no emitter, so whatever the server makes of the subscription, nothing may be
+					// delivered on the strength of that entry
+					req.Filters = append(req.Filters, &spyv1.FilterEntry{})
+					if len(x.filters) == 0 {
+						x.badFilt = true
+					}
+					stats.Fault("filter-entry-of-unknown-kind")
+				}
 				nBefore := len(s.subs)
 				go func() {
 					x.retErr = s.SubscribeSignedVAA(req, x.stream)
 					x.returned = true
 				}()
 				synctest.Wait()
+				if x.returned && unknownKind {
+					log.Add("sub with unknown filter kind refused")
+					break // refusing such a subscription is fine
+				}
 				if x.returned {
 					violate("subscription-rejected", "valid subscription returned at once: %v", x.retErr)
 					break
@@ -573,6 +589,7 @@ func (h spyHarness) Exec(p *simkit.Program) *simkit.Result {
 			}
 			synctest.Wait()
 			var wg sync.WaitGroup
+			var churnGot atomic.Int32
 			for pi := 0; pi < 3; pi++ {
 				wg.Add(1)
 				go func(pi int) {
@@ -596,10 +613,19 @@ func (h spyHarness) Exec(p *simkit.Program) *simkit.Result {
 						time.Sleep(time.Duration(1+ci) * time.Microsecond)
 						cancel()
 						<-done
+						st.mu.Lock()
+						n := len(st.got)
+						st.mu.Unlock()
+						if n > 0 {
+							churnGot.Add(int32(n))
+						}
 					}
 				}(ci)
 			}
 			wg.Wait()
+			if n := churnGot.Load(); n > 0 {
+				violate("non-matching-vaa-delivered", "subscribers whose only filter names an emitter nobody publishes for received %d VAAs during concurrent publication", n)
+			}
 			stats.Probe("concurrent-storm")
 		}
 		res.SimNs = int64(time.Since(start))
